@@ -50,6 +50,14 @@ CHECKS = {
    text="Histories from KV.tla are continued in four ways (all keys removed; a subset removed/overwritten; a subset overwritten followed by drain cycles with threshold 0; idle rounds) and executed with file limits of 30-200 B so that data spreads over many primary and index files. C11Trace.tla evaluates on the projection of the REAL directory after every cycle: a non-current primary file without live references / an index file without bucket references has length 0 or is gone after at most 2 completed cycles; every file that was non-current when a threshold-0 drain began is released within ceil(live/2)+3 cycles; a cycle never increases the reported StorageSize (16 B header slack); once two consecutive idle rounds leave the directory fingerprint unchanged all later rounds do, and no file except the re-created empty freelist is touched.",
    note="cycle bounds are generous versions of the measured ones (1 and ceil(live/2)+1); GC cycles run without time limits in this check (progress under time limits is not bounded by the property); 'unlinked' is demanded only in the form the property states (0-byte files that become oldest later may stay).",
    ref="DESIGN.md §6 C11"),
+ "C05": dict(engine="conc", technique="TLC model checking of StoreConc.tla (Linearizable, NoError) + replay of its transitions as schedules on the real store by a cooperative scheduler + TLC as linearizability checker on the recorded history (LinTrace.tla)",
+   text="StoreConc.tla models every foreground call as the separate critical sections of store.go (bucket info, record-list read, primary read/compare/write, index write, freelist put) over two keys that share bucket and stored prefix (real insertion rule), interleaved with the six steps of a commit; TLC checks linearizability at every terminal state and exports one schedule per transition. The cooperative scheduler replays them at the verif yield points on a real store; overlapping-commit probes park one Flush at each of its yield points and run a write and a second Flush. LinTrace.tla searches, for each recorded history (results, real-time order, final contents before and after flush + reopen), a linearization under the map semantics.",
+   note="2 threads x 1 call + 1-2 commits per history; quick tier samples 1500 schedules per configuration, thorough replays all; programs that fire the known findings KF-C05-same-key-writers-a/b are guarded out of the bulk (KnownRace in the spec) and run as pinned witnesses; races strictly inside a critical section are not reachable by schedule replay.",
+   ref="DESIGN.md §3.6, §6 C05"),
+ "C06": dict(engine="conc", technique="TLC model checking of StoreConcGC.tla + schedule replay (client call x commit x index-GC cycle x primary-GC cycle with relocation) and lock probes on the real store + LinTrace.tla; free-running histories with both collectors checked by RegTrace.tla",
+   text="StoreConcGC.tla models one call, one commit, an index-GC cycle and a primary-GC cycle with relocation over abstract locations; TLC checks that the call's result and the final contents are undisturbed and exports one schedule per transition. Schedules are replayed by thread choice on real stores whose files were shaped by sequential setups (superseded index/primary records, pending freelist entries, every record in its own file, buckets evicted from the write pools). Lock probes park the flusher and each collector at every yield point and run every other thread to completion. Free-running rounds (4 single-writer writers, 4 readers, started flusher, 2 extra Flush callers, both collectors in a loop) are checked by RegTrace.tla (atomic-register conditions per key, final contents before/after reopen).",
+   note="the two known findings KF-C06-idx-read-after-reap and KF-C06-stale-primary-loc are guarded out of the model schedules, their trigger predicates are evaluated in TLA+ on the recorded yield points (Window in LinTrace.tla), a bulk failure is attributed to one only if its trigger fired and every violated rule is among its symptoms; in the free-running rounds collector segments exclude foreground calls so that the known windows cannot open (collector vs flusher and collector vs collector remain unconstrained).",
+   ref="DESIGN.md §3.6, §6 C06"),
 }
 
 NOT_APPLICABLE = [
@@ -91,6 +99,7 @@ def main():
             {"name": "seq", "path": "harness/cmd/vrun/seq.go + harness/internal/fsckread + spec/KV.tla + spec/StoreTrace.tla + tools/seqeng.py", "serves_properties": ["C01", "C02", "C04", "C07", "C09", "C11", "C13"], "kind_free_text": "TLC-generated call histories executed on a real store.Store; TLC total monitor over the recorded trace"},
             {"name": "bstore", "path": "harness/cmd/vrun/bstore.go + spec/Blockstore.tla + spec/BlockstoreTrace.tla", "serves_properties": ["C15"], "kind_free_text": "TLC state-graph replay on real HashedBlockstore + TLC trace monitor"},
             {"name": "flushrate", "path": "harness/cmd/vrun/flushrate.go + harness/internal/sched + spec/FlushRate.tla + spec/FlushRateTrace.tla", "serves_properties": ["C12"], "kind_free_text": "TLC schedules replayed by a cooperative scheduler at yield points (build tag verif); TLC trace monitor"},
+            {"name": "conc", "path": "harness/cmd/vrun/conc.go + harness/cmd/vrun/stress.go + harness/internal/sched + spec/StoreConc.tla + spec/StoreConcGC.tla + spec/LinTrace.tla + spec/RegTrace.tla", "serves_properties": ["C05", "C06"], "kind_free_text": "TLC schedules replayed by a cooperative scheduler; TLC linearizability / atomic-register monitors over recorded histories"},
             {"name": "fcache", "path": "harness/cmd/vrun/fcache.go + spec/FileCache.tla + spec/FileCacheTrace.tla", "serves_properties": ["C14"], "kind_free_text": "TLC state-graph replay on real FileCache + TLC trace monitor"},
             {"name": "reclist", "path": "harness/cmd/vrun/reclist.go + spec/RecordList.tla + spec/RecordListTrace.tla", "serves_properties": ["C08"], "kind_free_text": "TLC state-graph replay on real index.Index + TLC trace monitor"},
         ],
